@@ -1,6 +1,7 @@
 package props
 
 import (
+	"errors"
 	"fmt"
 	"regexp"
 	"sort"
@@ -16,6 +17,22 @@ type ParseCase struct {
 	Env        map[string]string `json:"env,omitempty"`
 	Handler    *HandlerSpec      `json:"handler,omitempty"`
 	CmdHandler bool              `json:"cmd_handler,omitempty"`
+	// ExecErr: what Execute returns: "" (nil), "help" (a *flags.Error of type
+	// ErrHelp), "plain" (a foreign error)
+	ExecErr string `json:"exec_err,omitempty"`
+}
+
+var errExecPlain = errors.New("sentinel: command failed")
+var errExecHelp = &flags.Error{Type: flags.ErrHelp, Message: "help text of the command\nsecond line"}
+
+func (c *ParseCase) execErr() error {
+	switch c.ExecErr {
+	case "help":
+		return errExecHelp
+	case "plain":
+		return errExecPlain
+	}
+	return nil
 }
 
 func (c *ParseCase) Key() string {
